@@ -127,11 +127,18 @@ a refused transfer mutates nothing (the model returns no state). -/
 theorem transfer_reject_iff (a1 a2 : Asm) : transfer a1 a2 = none ↔ statIdx a1 ≠ statIdx a2 := by
   unfold transfer; split <;> simp [*]
 
+private theorem swap_of_ne (s : St) {i1 i2 : Nat} (hne : i1 ≠ i2) : swap s i1 i2 = swapCore s i1 i2 := by
+  simp [swap, hne]
+
 /-- **a swap does not touch the inventory**: same children in the same order, same pool, same name tables. -/
 theorem swap_keeps_inventory (s s' : St) (i1 i2 : Nat) (h : swap s i1 i2 = some s') :
     s'.core.map (·.1.id) = s.core.map (·.1.id) ∧ s'.sfp = s.sfp ∧ s'.byName = s.byName ∧ s'.bbn = s.bbn ∧
     s'.track = s.track := by
-  unfold swap at h
+  by_cases hii : i1 = i2
+  · simp only [swap, hii, if_true, Option.some.injEq] at h
+    subst h; exact ⟨rfl, rfl, rfl, rfl, rfl⟩
+  rw [swap_of_ne s hii] at h
+  unfold swapCore at h
   split at h
   · rename_i a1 c1 a2 c2 h1 h2
     split at h
@@ -164,7 +171,8 @@ operation put it: a1 at a2's old cell, a2 at a1's old cell, everybody else where
 assemblies are different and sit at different cells. -/
 private theorem swap_locOk (s s' : St) (i1 i2 : Nat) (hne : i1 ≠ i2) (h : swap s i1 i2 = some s')
     (hcells : ∀ p ∈ s.core, ∀ q ∈ s.core, p.2 = q.2 → p.1.id = q.1.id) (hok : LocOk s) : LocOk s' := by
-  unfold swap at h
+  rw [swap_of_ne s hne] at h
+  unfold swapCore at h
   split at h
   · rename_i a1 c1 a2 c2 h1 h2
     split at h
@@ -296,7 +304,8 @@ private theorem swap_shape (s s' : St) (i1 i2 : Nat) (hne : i1 ≠ i2) (h : swap
       s'.core = s.core.map (fun p => if p.1.id = i1 then (a1', c2) else if p.1.id = i2 then (a2', c1) else p) ∧
       s'.byLoc = setLoc (setLoc s.byLoc c2 i1) c1 i2 ∧
       s'.sfp = s.sfp ∧ s'.byName = s.byName ∧ s'.bbn = s.bbn ∧ s'.track = s.track := by
-  unfold swap at h
+  rw [swap_of_ne s hne] at h
+  unfold swapCore at h
   split at h
   · rename_i a1 c1 a2 c2 h1 h2
     split at h
@@ -754,9 +763,6 @@ theorem inv_dischargeSwap (s s' : St) (incoming : Asm) (outId : Nat)
 
 /-! ### histories -/
 
-/-- no assembly in the core carries a stationary block (`stationaryBlockFlags: []`) -/
-def CoreNoStat (s : St) : Prop := ∀ p ∈ s.core, ∀ b ∈ p.1.blocks, b.stat = false
-
 private theorem transfer_nostat_eq (a1 a2 a1' a2' : Asm) (h : transfer a1 a2 = some (a1', a2'))
     (hns : ∀ b ∈ a1.blocks, b.stat = false) : a1' = a1 ∧ a2' = a2 := by
   unfold transfer at h
@@ -766,62 +772,15 @@ private theorem transfer_nostat_eq (a1 a2 a1' a2' : Asm) (h : transfer a1 a2 = s
     obtain ⟨rfl, rfl⟩ := h
     rw [xchg_nostat _ _ hns]; exact ⟨rfl, rfl⟩
 
-/-- **a swap of an assembly with itself (no stationary block involved) is the identity**: `moveTo` to the own cell
-rebinds `childrenByLocator[cell]` to the assembly that is already there. -/
-theorem swap_self (s s' : St) (i : Nat) (hI : Inv s) (h : swap s i i = some s')
-    (hns : ∀ p ∈ s.core, p.1.id = i → ∀ b ∈ p.1.blocks, b.stat = false) : s' = s := by
-  have hndc : (s.core.map (·.1.id)).Nodup := (List.nodup_append.1 hI.nodup).1
-  unfold swap at h
-  cases hf : s.core.find? (fun p => p.1.id = i) with
-  | none => simp [hf] at h
-  | some q =>
-    obtain ⟨a, c⟩ := q
-    obtain ⟨hm, hid⟩ := find_id hf
-    simp only [hf] at h
-    cases ht : transfer a a with
-    | none => simp [ht] at h
-    | some r =>
-      obtain ⟨a1', a2'⟩ := r
-      simp only [ht, Option.some.injEq] at h
-      obtain ⟨x1, x2⟩ := transfer_nostat_eq _ _ _ _ ht (hns (a, c) hm hid)
-      rw [x1, x2] at h
-      have hc : updCore s.core i a c = s.core := by
-        unfold updCore
-        conv_rhs => rw [← List.map_id s.core]
-        apply List.map_congr_left
-        intro p hp
-        split
-        · rename_i hpi; exact (ids_inj hndc hp hm (by rw [hpi, hid])).symm
-        · rfl
-      have hl : setLoc (setLoc s.byLoc c i) c i = s.byLoc := by
-        funext x
-        by_cases hx : x = c
-        · subst hx; simp only [setLoc, if_true]
-          have := hI.locFound (a, x) hm
-          rw [this, hid]
-        · simp [setLoc, hx]
-      rw [← h, hc, hc, hl]
+/-- **a swap of an assembly with itself is the identity** (skipped with a warning), stationary blocks or not -/
+theorem swap_self (s s' : St) (i : Nat) (h : swap s i i = some s') : s' = s := by
+  simp only [swap, if_true, Option.some.injEq] at h; exact h.symm
 
-private theorem swap_coreNoStat (s s' : St) (i1 i2 : Nat) (hne : i1 ≠ i2) (h : swap s i1 i2 = some s') (hI : Inv s)
-    (hns : CoreNoStat s) : CoreNoStat s' := by
-  have hndc : (s.core.map (·.1.id)).Nodup := (List.nodup_append.1 hI.nodup).1
-  obtain ⟨a1, c1, a2, c2, a1', a2', m1, m2, k1, k2, ht, hcore, _⟩ := swap_shape s s' i1 i2 hne h hndc
-  obtain ⟨x1, x2⟩ := transfer_nostat_eq _ _ _ _ ht (hns _ m1)
-  subst x1; subst x2
-  intro q hq b hb
-  rw [hcore] at hq
-  obtain ⟨p, hp, rfl⟩ := List.mem_map.1 hq
-  by_cases hp1 : p.1.id = i1
-  · rw [if_pos hp1] at hb; exact hns _ m1 b hb
-  · by_cases hp2 : p.1.id = i2
-    · rw [if_neg hp1, if_pos hp2] at hb; exact hns _ m2 b hb
-    · rw [if_neg hp1, if_neg hp2] at hb; exact hns _ hp b hb
-
-/-- cascades that may name an assembly twice, on a core without stationary blocks: every property that swaps of two
-different assemblies preserve is preserved (a swap with itself is the identity) -/
-private theorem cascadeLoop_ns (P : St → Prop)
+/-- cascades, also those naming an assembly twice: every property that swaps of two different assemblies preserve
+is preserved (a swap of an assembly with itself is skipped) -/
+private theorem cascadeLoop_any (P : St → Prop)
     (hstep : ∀ s s' i j, i ≠ j → swap s i j = some s' → Inv s → P s → P s')
-    (a0 : Nat) (l : List Nat) (s : St) (hI : Inv s) (hns : CoreNoStat s) (hP : P s) :
+    (a0 : Nat) (l : List Nat) (s : St) (hI : Inv s) (hP : P s) :
     P (cascadeLoop a0 s l).1 ∧ Inv (cascadeLoop a0 s l).1 := by
   induction l generalizing s with
   | nil => exact ⟨hP, hI⟩
@@ -832,18 +791,17 @@ private theorem cascadeLoop_ns (P : St → Prop)
     · rename_i s' hs
       by_cases hak : a0 = ak
       · subst hak
-        have := swap_self s s' a0 hI hs (fun p hp _ => hns p hp)
+        have := swap_self s s' a0 hs
         subst this
-        exact ih s' hI hns hP
-      · exact ih s' (inv_swap s s' a0 ak hak hs hI) (swap_coreNoStat s s' a0 ak hak hs hI hns)
-          (hstep s s' a0 ak hak hs hI hP)
+        exact ih s' hI hP
+      · exact ih s' (inv_swap s s' a0 ak hak hs hI) (hstep s s' a0 ak hak hs hI hP)
 
-/-- the preconditions of an operation: what the caller guarantees (distinct assemblies - or, for a swap of an assembly
-with itself and cascades naming an assembly twice, no stationary block involved; a fresh assembly is not already in
-the reactor) and what `Core.add` checks (cell free) -/
+/-- the preconditions of an operation: what the caller guarantees (a fresh assembly is not already in the reactor;
+swaps and cascades need nothing: a swap of an assembly with itself, also inside a cascade naming an assembly twice,
+is skipped) and what `Core.add` checks (cell free) -/
 def Pre (s : St) : Op → Prop
-  | .swap i j => i ≠ j ∨ ∀ p ∈ s.core, p.1.id = i → ∀ b ∈ p.1.blocks, b.stat = false
-  | .cascade l => (∀ a0 rest, l = a0 :: rest → ∀ ak ∈ rest, a0 ≠ ak) ∨ CoreNoStat s
+  | .swap _ _ => True
+  | .cascade _ => True
   | .dnew a _ => a.id ∉ inventory s
   | .dsfp _ _ => True
   | .remove _ _ => True
@@ -865,17 +823,12 @@ theorem inv_step (s : St) (op : Op) (hI : Inv s) (hp : Pre s op) : Inv (step s o
     | none => exact hI
     | some s' =>
       by_cases hij : i = j
-      · subst hij
-        rcases hp with hp | hp
-        · exact absurd rfl hp
-        · rw [swap_self s s' i hI h hp]; exact hI
+      · subst hij; rw [swap_self s s' i h]; exact hI
       · exact inv_swap s s' i j hij h hI
   | cascade l =>
-    rcases hp with hp | hp
-    · exact inv_cascade l s hp hI
-    · cases l with
-      | nil => exact hI
-      | cons a0 rest => exact (cascadeLoop_ns (fun _ => True) (fun _ _ _ _ _ _ _ _ => trivial) a0 rest s hI hp trivial).2
+    cases l with
+    | nil => exact hI
+    | cons a0 rest => exact (cascadeLoop_any (fun _ => True) (fun _ _ _ _ _ _ _ _ => trivial) a0 rest s hI trivial).2
   | dnew a o =>
     rw [step_dnew]
     cases h : dischargeSwap (preReg s a) a o with
@@ -985,15 +938,13 @@ def exOps : List Op :=
 
 example : RunOK exSt exOps := by
   simp only [RunOK, exOps, Pre]
-  refine ⟨Or.inl (by decide), Or.inl ?_, ?_, trivial, trivial, ?_, trivial⟩
-  · intro a0 rest h; cases h; decide
+  refine ⟨trivial, trivial, ?_, trivial, trivial, ?_, trivial⟩
   · decide
   · exact ⟨by decide, by decide⟩
 
 example : Inv (run exSt exOps) := inv_run _ _ (inv_init _ _ _ (by decide) (by decide)) (by
   simp only [RunOK, exOps, Pre]
-  refine ⟨Or.inl (by decide), Or.inl ?_, ?_, trivial, trivial, ?_, trivial⟩
-  · intro a0 rest h; cases h; decide
+  refine ⟨trivial, trivial, ?_, trivial, trivial, ?_, trivial⟩
   · decide
   · exact ⟨by decide, by decide⟩)
 
@@ -1673,20 +1624,15 @@ theorem blkFound_step (s : St) (op : Op) (hI : Inv s) (hp : Pre s op) (htk : s.t
     | none => exact hB
     | some s' =>
       by_cases hij : i = j
-      · subst hij
-        rcases hp with hp | hp
-        · exact absurd rfl hp
-        · rw [swap_self s s' i hI h hp]; exact hB
+      · subst hij; rw [swap_self s s' i h]; exact hB
       · exact blkFound_swap s s' i j hij h hndc hB
   | cascade l =>
     simp only [step]
     cases l with
     | nil => exact hB
     | cons a0 rest =>
-      rcases hp with hp | hp
-      · exact blkFound_cascadeLoop a0 rest s (hp a0 rest rfl) hI hB
-      · exact (cascadeLoop_ns BlkFound (fun s s' i j hij h hI hB =>
-          blkFound_swap s s' i j hij h (List.nodup_append.1 hI.nodup).1 hB) a0 rest s hI hp hB).1
+      exact (cascadeLoop_any BlkFound (fun s s' i j hij h hI hB =>
+        blkFound_swap s s' i j hij h (List.nodup_append.1 hI.nodup).1 hB) a0 rest s hI hB).1
   | dnew a o =>
     rw [step_dnew]
     have hB0 : BlkFound (preReg s a) := by
@@ -1759,8 +1705,7 @@ example : BlkFound (run exSt [.swap 1 2, .cascade [1, 2, 3], .dsfp 9 1, .remove 
   blocks_found_run_partial _ _ (inv_init _ _ _ (by decide) (by decide))
     (by
       simp only [RunOK, Pre]
-      refine ⟨Or.inl (by decide), Or.inl ?_, trivial, trivial, trivial⟩
-      intro a0 rest h; cases h; decide)
+      exact ⟨trivial, trivial, trivial, trivial, trivial⟩)
     rfl
     (by intro op hop; simp only [List.mem_cons, List.not_mem_nil, or_false] at hop
         rcases hop with rfl | rfl | rfl | rfl <;> simp [BPre])
@@ -2261,20 +2206,15 @@ theorem binv_step (s : St) (op : Op) (hI : Inv s) (hp : Pre s op) (hbp : BPreP s
     | none => exact hB
     | some s' =>
       by_cases hij : i = j
-      · subst hij
-        rcases hp with hp | hp
-        · exact absurd rfl hp
-        · rw [swap_self s s' i hI h hp]; exact hB
+      · subst hij; rw [swap_self s s' i h]; exact hB
       · exact binv_swap s s' i j hij h hI.nodup hB
   | cascade l =>
     simp only [step]
     cases l with
     | nil => exact hB
     | cons a0 rest =>
-      rcases hp with hp | hp
-      · exact binv_cascadeLoop a0 rest s (hp a0 rest rfl) hI.nodup hB
-      · exact (cascadeLoop_ns BInv (fun s s' i j hij h hI hB => binv_swap s s' i j hij h hI.nodup hB)
-          a0 rest s hI hp hB).1
+      exact (cascadeLoop_any BInv (fun s s' i j hij h hI hB => binv_swap s s' i j hij h hI.nodup hB)
+        a0 rest s hI hB).1
   | dnew a o =>
     rw [step_dnew]
     obtain ⟨hsome, hnd, hdj⟩ := hbp
